@@ -53,6 +53,13 @@ FAULT_TABLE = [
     ('M', '[[1],2,3]', ['UnableToParse']), ('M', '[1,2,[3]]', ['UnableToParse']), ('M', '[[[1,2],[3,4]],[[1,2],[3,4]]]', ['UnableToParse']),
     # author mistakes that only show while grading: still a library error (never a bare numpy / Python one)
     ('LIN2', 'x', ['ConfigError']), ('SPANBAD', '[1,2]', ['StudentFacingError']), ('PHASEBAD', '[1,2]', ['StudentFacingError']),
+    # integer-typed quantities (constants, IntegerRange samples, the summation index) in power towers: overflow, not a hang
+    ('FI', 'N^N^N', ['CalcOverflowError']), ('FI', 'N^N^N^N', ['CalcOverflowError']), ('FI', '2^N^N^N', ['CalcOverflowError']),
+    ('FIR', 'n^n^n', ['CalcOverflowError']), ('FIR', 'n^(n^n)', ['CalcOverflowError']), ('FIR', 'n^n^n^n', ['CalcOverflowError']),
+    ('SUM', ['7', '9', 'n^n^n', 'n'], ['CalcOverflowError']), ('SUM', ['1', '9', 'n^n^n^n', 'n'], ['CalcOverflowError']),
+    # author functions failing in ways of their own: still "not in its domain"
+    ('UF', 'tab(7)', ['FunctionEvalError']), ('UF', 'kk(5)', ['FunctionEvalError']), ('UF', 'att(2)', ['FunctionEvalError']),
+    ('UF', 'asrt(2)', ['FunctionEvalError']), ('UF', 'stp(2)', ['FunctionEvalError']),
     ('SUM', ['1.5', '3', 'n', 'n'], ['SummationError']), ('SUM', ['i^2+2', '3', 'n', 'n'], ['SummationError']),
     ('SUM', ['1', '3+0*i', 'n', 'n'], ['SummationError']), ('SUM', ['1', '3+i', 'n', 'n'], ['SummationError']), ('SUM', ['1', '3', 'n', 'pi'], ['InvalidInput']),
     ('SUM', ['1', '', 'n', 'n'], ['MissingInput']), ('L', ['', 'x'], ['MissingInput', None]),
@@ -321,6 +328,19 @@ def run_table(ctx):
             return M.StringGrader(answers='cat', validation_pattern='[a-z]+')
         if kind == 'I':
             return M.IntervalGrader(answers='[1,2]')
+        if kind == 'FI':
+            return M.FormulaGrader(answers='N', user_constants={'N': 9})
+        if kind == 'FIR':
+            return M.FormulaGrader(answers='n', variables=['n'], sample_from={'n': M.IntegerRange([7, 9])})
+        if kind == 'UF':
+            def asrt(x):
+                assert x < 0
+                return x
+
+            def stp(x):
+                raise StopIteration('domain')
+            return M.FormulaGrader(answers='1', user_functions={'tab': lambda x: [1, 2, 3][int(x)], 'kk': lambda x: {1: 2}[x],
+                                                                 'att': lambda x: x.shape[0], 'asrt': asrt, 'stp': stp})
         if kind == 'LIN2':
             from mitxgraders.comparers import LinearComparer
             return M.FormulaGrader(answers={'comparer': LinearComparer(), 'comparer_params': ['x']}, variables=['x'], samples=2)
